@@ -130,6 +130,28 @@ class DropIn(Monitor):
             r = value.replace(parameters=some)
             if not isinstance(r, S) or list(r.parameters) != [p.name for p in some]:
                 self.V('replace-parameters-override', 'Signature.replace(parameters=...) did not take the given parameters', w)
+            # every field overridden alone, also with falsy values: the override wins, everything else is kept
+            empty_map = {}
+            for label, kw, check in (
+                    ('sources={}', dict(sources=empty_map), lambda r: r.sources is empty_map),
+                    ('upgraded_return_annotation=EmptyAnnotation', dict(upgraded_return_annotation=_signatures.EmptyAnnotation),
+                     lambda r: r.upgraded_return_annotation is _signatures.EmptyAnnotation),
+                    ('return_annotation=empty', dict(return_annotation=S.empty), lambda r: r.return_annotation is S.empty),
+                    ('parameters=[]', dict(parameters=[]), lambda r: len(r.parameters) == 0),
+                    ('parameters=()', dict(parameters=()), lambda r: len(r.parameters) == 0)):
+                r = value.replace(**kw)
+                ctx.count('C14.replace_single_overrides')
+                if not isinstance(r, S) or not check(r):
+                    self.V('replace-ignores-falsy-override', 'Signature.replace(%s) ignored the override' % label, w)
+                    break
+                kept = [('sources', r.sources is value.sources or r.sources == value.sources),
+                        ('upgraded_return_annotation', r.upgraded_return_annotation is value.upgraded_return_annotation),
+                        ('return_annotation', r.return_annotation is value.return_annotation or r.return_annotation == value.return_annotation),
+                        ('parameters', list(r.parameters.values()) == list(value.parameters.values()))]
+                lost = [k for k, ok_ in kept if not ok_ and k not in kw]
+                if lost:
+                    self.V('replace-override-loses-other-field', 'Signature.replace(%s) also changed %s' % (label, ', '.join(lost)), w)
+                    break
         except Exception as e:
             self.V('replace-raises-%s' % type(e).__name__, 'Signature.replace raised %s: %s' % (type(e).__name__, e), w)
         for p in value.parameters.values():
@@ -153,6 +175,38 @@ class DropIn(Monitor):
                 q = p.replace(annotation=str, upgraded_annotation=ua, sources=['x'], source_depths={'x': 0})
                 if q.upgraded_annotation is not ua or q.sources != ['x'] or q.source_depths != {'x': 0} or q.annotation is not str:
                     self.V('param-replace-ignores-override', 'Parameter.replace(...) ignored an override', w)
+                    break
+                # every field overridden alone (falsy values too); the others are kept
+                e_list, e_map = [], {}
+                other_kind = P.KEYWORD_ONLY if p.kind in (P.POSITIONAL_ONLY, P.POSITIONAL_OR_KEYWORD) else p.kind
+                singles = [
+                    ('kind', dict(kind=other_kind), lambda q: q.kind == other_kind),
+                    ('annotation=empty', dict(annotation=P.empty), lambda q: q.annotation is P.empty),
+                    ('sources=[]', dict(sources=e_list), lambda q: q.sources is e_list),
+                    ('source_depths={}', dict(source_depths=e_map), lambda q: q.source_depths is e_map),
+                    ('function=None', dict(function=None), lambda q: q._function is None),
+                    ('upgraded_annotation=EmptyAnnotation', dict(upgraded_annotation=_signatures.EmptyAnnotation),
+                     lambda q: q.upgraded_annotation is _signatures.EmptyAnnotation)]
+                if p.kind not in (P.VAR_POSITIONAL, P.VAR_KEYWORD):
+                    singles.append(('default=None', dict(default=None), lambda q: q.default is None))
+                    singles.append(('default=empty', dict(default=P.empty), lambda q: q.default is P.empty))
+                bad = None
+                for label, kw, check in singles:
+                    q = p.replace(**kw)
+                    ctx.count('C14.param_replace_single_overrides')
+                    if not isinstance(q, P) or not check(q):
+                        bad = ('param-replace-ignores-falsy-override', 'Parameter.replace(%s) ignored the override' % label)
+                        break
+                    kept = [('sources', q.sources is p.sources), ('source_depths', q.source_depths is p.source_depths),
+                            ('function', q._function is p._function), ('upgraded_annotation', q.upgraded_annotation is p.upgraded_annotation),
+                            ('name', q.name == p.name), ('kind', q.kind == p.kind),
+                            ('default', q.default is p.default), ('annotation', q.annotation is p.annotation)]
+                    lost = [k for k, ok_ in kept if not ok_ and k not in kw and not label.startswith(k)]
+                    if lost:
+                        bad = ('param-replace-override-loses-other-field', 'Parameter.replace(%s) also changed %s' % (label, ', '.join(lost)))
+                        break
+                if bad:
+                    self.V(bad[0], bad[1], w)
                     break
             except Exception as e:
                 self.V('param-replace-raises-%s' % type(e).__name__, 'Parameter.replace raised %s' % type(e).__name__, w)
